@@ -18,6 +18,8 @@
                 HAMTShardingSize (C16-2)
       f_gate    HAMT->basic is considered only when sizeChange + delta < 0 (C16-3)
       f_units   sizeChange is kept in name+CID bytes also in block-size mode (C16-4)
+      f_addname needsToSwitchToBasicDir sizes the entry being ADDED from MakeLink(node), whose
+                Name is empty: the name bytes of the new entry are not counted (C16-5)
     No proofs in this file. *)
 From Coq Require Import List ZArith Bool NArith String Ascii.
 From V Require Import lib.Verdict model.M_C15.
@@ -48,7 +50,7 @@ Record cfg16 := mkcfg16 {
   g_dynamic : bool   (* DynamicDirectory; false = pure HAMTDirectory *)
 }.
 
-Record flags16 := mkflags16 { f_prefix : bool; f_thresh : bool; f_gate : bool; f_units : bool }.
+Record flags16 := mkflags16 { f_prefix : bool; f_thresh : bool; f_gate : bool; f_units : bool; f_addname : bool }.
 
 (** linkSizeFor / the per-link term of estimatedSize in the current mode *)
 Definition link_size (c : cfg16) (n : Z) (v : val) : Z :=
@@ -153,7 +155,7 @@ Section Dyn.
     let ml := g_maxlinks c in
     let canMax := negb ((0 <? ml) && (ml <? newTotal)) in
     if g_mode c =? 2 then canMax && (0 <? ml) && (newTotal <=? ml) else
-    let delta := (match nv with Some v => link_size c (nlen k) v | None => 0 end)
+    let delta := (match nv with Some v => link_size c (if f_addname fl then 0 else nlen k) v | None => 0 end)
                  - (match old with Some w => link_size c (stored_nlen k) w | None => 0 end) in
     (* the repair of C16-1 also turned the gate's [< 0] into [<= 0]: with bare names a net change
        of 0 means the size is back to what it was before the conversion *)
@@ -334,12 +336,13 @@ Definition ob16_eqb (a b : ob16) : bool :=
 Inductive case16 :=
 | CRoot (c : cfg16) (tbl : table) (ops : list op16) (obs : list ob16) (same_cid : bool) (canon_hamt : bool).
 
-Definition fl_spec := mkflags16 false false false false.            (* what the property demands *)
-Definition fl_code := mkflags16 false false true true.              (* the code today: C16-1, C16-2 repaired *)
-Definition fl_p := mkflags16 true false true true.                  (* C16-1 back *)
-Definition fl_t := mkflags16 false true true true.                  (* C16-2 back *)
-Definition fl_pt := mkflags16 true true true true.                  (* both back *)
-Definition fl_gate_only := mkflags16 false false true false.        (* gate with consistent units *)
+Definition fl_spec := mkflags16 false false false false false.      (* what the property demands *)
+Definition fl_code := mkflags16 false false true true false.        (* the code today: C16-1, C16-2, C16-5 repaired *)
+Definition fl_p := mkflags16 true false true true false.            (* C16-1 back *)
+Definition fl_t := mkflags16 false true true true false.            (* C16-2 back *)
+Definition fl_n := mkflags16 false false true true true.            (* C16-5 back *)
+Definition fl_all := mkflags16 true true true true true.            (* the code as it was found *)
+Definition fl_gate_only := mkflags16 false false true false false.  (* gate with consistent units *)
 
 Definition is_hamt16 (s : st) : bool := match s with SHamt _ _ _ _ => true | _ => false end.
 
@@ -374,6 +377,7 @@ Definition check_case16 (cs : case16) : verdict :=
       else if mm fl_spec then (if spec_ok then VOk else VSpecFail)
       else if mm fl_p then (if spec_ok then VOk else VKnown 1)
       else if mm fl_t then (if spec_ok then VOk else VKnown 2)
-      else if mm fl_pt then (if spec_ok then VOk else VKnown 1)
+      else if mm fl_n then (if spec_ok then VOk else VKnown 5)
+      else if mm fl_all then (if spec_ok then VOk else VKnown 1)
       else if spec_ok then VModelMismatch else VSpecFail
   end.
